@@ -331,6 +331,20 @@ func c16NestedPrograms() []*progCase {
 		held(V("o1"), "length", call(V("o2"), "length")),
 		held(V("n1"), "floor", call(V("n2"), "floor")),
 		held(V("n1"), "round", call(V("n2"), "ceil")),
+		// a method on a value that another built-in or method has just produced
+		Arr_(call(CallE(V("num"), S("2.5")), "round"), call(CallE(V("num"), S("-7")), "floor"), call(CallE(V("num"), S("1e2")), "ceil")),
+		call(Idx(call(V("s1"), "split", S(",")), N("0")), "upper"),
+		call(call(call(V("s1"), "upper"), "lower"), "length"),
+		call(Idx(V("s1"), N("0")), "upper"),
+		call(call(call(V("n1"), "floor"), "ceil"), "round"),
+		call(call(V("o1"), "pluck", S("id"), S("x")), "length"),
+		call(Mem(call(V("o1"), "pluck", S("x")), "x"), "lower"),
+		call(Idx(call(Arr_(N("3.5"), N("1.5")), "sort"), N("0")), "floor"),
+		call(Idx(call(Arr_(S("b"), S("a")), "sort"), N("1")), "upper"),
+		call(call(Arr_(N("3"), N("1")), "sort"), "length"),
+		call(Bin("+", V("s1"), V("s2")), "length"),
+		call(&Paren{X: Bin("*", V("n1"), N("3"))}, "floor"),
+		call(Mem(call(V("o1"), "pluck", S("id")), "id"), "floor"),
 	}
 	var out []*progCase
 	for _, e := range exprs {
@@ -374,7 +388,7 @@ func init() {
 		ID: "C16",
 		Rule: "all strings of length <= L over {a,B,',',blank,é,ß} x all separators of length <= 2 for split (with length/upper/lower on all strings); the double sweep plus every k+{0,.25,.5,.75} for floor/ceil/round; " +
 			"40 objects with keys within {a,b,c} x all key lists of length <= 3 over {a,b,z} for pluck (result, original unchanged, sharing, freshness); all strings of length <= 4 over {0,1,5,.,e,-,+,x,blank} for num(); " +
-			"17 expressions that look one method up on two receivers (nested in its own arguments, side by side, held in a match binding); every method name x 10 receiver kinds x 21 argument lists and the builtins for the value-or-runtime-error rule; oracle: reference functions of DESIGN.md 3.16 (whose split output is asserted to satisfy the join / no-separator laws); " +
+			"17 expressions that look one method up on two receivers (nested in its own arguments, side by side, held in a match binding) and 13 that call a method on a value another built-in or method has just produced (num, split, indexing, sort, pluck, concatenation); every method name x 10 receiver kinds x 21 argument lists and the builtins for the value-or-runtime-error rule; oracle: reference functions of DESIGN.md 3.16 (whose split output is asserted to satisfy the join / no-separator laws); " +
 			"non-trivial = splits into >= 2 pieces, halves, strict numerals",
 		Plan: func(t fw.Tier) int { return U },
 		Bound: func(t fw.Tier) string {
